@@ -100,9 +100,15 @@ func makeDamaged(valid, path string, d Damage) {
 			k, _ := c.Seek([]byte("V"))
 			if k != nil && k[0] == 'V' {
 				kk := append([]byte{}, k...)
-				if d.V == "bad" {
+				switch d.V {
+				case "bad":
 					b.Put(kk, []byte("\xff\xffnot a roaring bitmap"))
-				} else {
+				case "empty":
+					b.Put(kk, []byte{})
+				case "half":
+					v := b.Get(kk)
+					b.Put(kk, append([]byte{}, v[:len(v)/2]...))
+				default:
 					b.Delete(kk)
 				}
 			}
@@ -186,6 +192,9 @@ func runOpenCase(o *Oracle, valid string, c *OpenCase, rep *Report) {
 				if err := idx.Close(); err != nil {
 					return "second close err: " + err.Error()
 				}
+				if err := idx.Close(); err != nil {
+					return "third close err: " + err.Error()
+				}
 			}
 			return "ok"
 		})
@@ -210,7 +219,7 @@ func allDamages() []Damage {
 	ds := []Damage{{Kind: "absent"}, {Kind: "garbage"}, {Kind: "empty"}, {Kind: "bolt", Bucket: false, S: "good", I: "good", V: "good"}}
 	for _, s := range []string{"good", "missing", "bad"} {
 		for _, i := range []string{"good", "missing", "short", "long"} {
-			for _, v := range []string{"good", "bad", "missing"} {
+			for _, v := range []string{"good", "bad", "missing", "empty", "half"} {
 				ds = append(ds, Damage{Kind: "bolt", Bucket: true, S: s, I: i, V: v})
 			}
 		}
@@ -257,6 +266,7 @@ func runC15(rep *Report, r *Rng, tier string) {
 // ---------- C06 ----------
 
 type CrashCase struct {
+	Poll   bool      `json:"poll,omitempty"` // also copy the output at arbitrary instants
 	Data   *DataSpec `json:"data"`
 	Writer string    `json:"writer"`
 	Point  int       `json:"point"` // commit point index (for replay: checked again for all points)
@@ -264,21 +274,45 @@ type CrashCase struct {
 
 func probeBattery(rows []map[string]string, r *Rng) []QCase {
 	pool := poolOf(rows)
+	st := statsOf(rows)
+	small := func(gb []string) []string { // group-by only over columns with few values: a probe must stay cheap
+		var out []string
+		for _, g := range gb {
+			if st.distinct[unhx(g)] <= 200 || (st.distinct[unhx(g)] <= 3000 && len(rows) <= 6000) {
+				out = append(out, g)
+			}
+		}
+		return out
+	}
 	var qs []QCase
 	for i := 0; i < 10; i++ {
 		gb := genGroupBy(r, pool, false)
 		if len(gb) > 2 {
 			gb = gb[:2]
 		}
-		qs = append(qs, QCase{E: genExpr(r, pool, 1+r.Intn(2), false), GB: gb})
+		qs = append(qs, QCase{E: genExpr(r, pool, 1+r.Intn(2), false), GB: small(gb)})
 	}
 	// one probe per column over all its (sampled) values, so that a missing bitmap shows
 	for ci, c := range pool.cols {
 		e := &Ex{Op: "O"}
-		for _, v := range pool.vals[ci] {
+		vals := pool.vals[ci]
+		if st.distinct[c] > len(vals) { // many values: sample evenly over the whole row range, not just the first rows
+			seen := map[string]bool{}
+			vals = nil
+			for k := 0; k < 96; k++ {
+				if v, ok := rows[k*len(rows)/96][c]; ok && !seen[v] {
+					seen[v] = true
+					vals = append(vals, v)
+				}
+			}
+		}
+		for _, v := range vals {
 			e.Kids = append(e.Kids, &Ex{Op: "E", C: hx(c), V: hx(v)})
 		}
-		qs = append(qs, QCase{E: e, GB: []string{hx(c)}})
+		if len(e.Kids) == 0 {
+			continue
+		}
+		qs = append(qs, QCase{E: e, GB: small([]string{hx(c)})})
 	}
 	return qs
 }
@@ -323,8 +357,45 @@ func runCrashCase(o *Oracle, c *CrashCase, rep *Report) {
 			os.Remove(path)
 		}
 	}
+	// besides the commit hooks: copy the output path at arbitrary instants while the writer runs (what a SIGKILL at
+	// that instant would leave behind, up to pages in flight)
+	stopPoll := make(chan struct{})
+	pollDone := make(chan struct{})
+	var polled []string
+	if c.Poll {
+		go func() {
+			defer close(pollDone)
+			last := int64(-1)
+			for k := 0; ; k++ {
+				select {
+				case <-stopPoll:
+					return
+				default:
+				}
+				if st, err := os.Stat(path); err == nil && (st.Size() != last || k%50 == 0) && len(polled) < 60 {
+					last = st.Size()
+					s := scratch(fmt.Sprintf("poll-%d.updog", len(polled)))
+					if data, err := os.ReadFile(path); err == nil {
+						os.WriteFile(s, data, 0644)
+						polled = append(polled, s)
+					}
+				}
+				time.Sleep(200 * time.Microsecond)
+			}
+		}()
+	} else {
+		close(pollDone)
+	}
 	_, err := buildIndexFile(c.Writer, rows, path)
+	close(stopPoll)
+	<-pollDone
 	updog.VerifSetCommitHook(nil)
+	for _, s := range polled {
+		// insert before the final snapshot so that "last" stays the complete file
+		snaps = append(snaps[:len(snaps)-1], append([]string{s}, snaps[len(snaps)-1:]...)...)
+		sites = append(sites[:len(sites)-1], append([]string{"polled"}, sites[len(sites)-1:]...)...)
+	}
+	rep.CountN("polled-snapshots", len(polled))
 	if err != nil {
 		infra("build: %v", err)
 	}
@@ -428,6 +499,16 @@ func runC06(rep *Report, r *Rng, tier string) {
 			}
 			runCrashCase(o, c, rep)
 		}
+	}
+	// a large bitmap volume (well over 64 KiB) written by the in-memory writer, observed at arbitrary instants
+	{
+		n := 12000
+		if tier == "thorough" {
+			n = 60000
+		}
+		d := &DataSpec{Seed: r.U64(), NRows: n, Cols: []ColSpec{{Name: hx("uid"), NVals: 1, Dist: "unique", Style: "ascii"}, {Name: hx("g"), NVals: 7, Dist: "random", Style: "ascii"}}}
+		runCrashCase(o, &CrashCase{Data: d, Writer: "mem", Poll: true}, rep)
+		rep.Count("polled-cases")
 	}
 	if tier == "thorough" {
 		runKillCreate(rep, r)
@@ -553,6 +634,22 @@ func runClobberCase(valid, csvPath string, c *ClobberCase, rep *Report) {
 	}
 	after := sha(path)
 	rep.Eval(fmt.Sprintf("%v", *c), true)
+	if c.Writer == "mem" && c.Pre == "index" {
+		// a writer whose first Flush succeeded: a second Flush finds its own output and must leave it alone
+		p2 := scratch("flushtwice.updog")
+		os.Remove(p2)
+		w := updog.NewIndexWriter(p2)
+		w.AddRow(map[string]string{"a": "1"})
+		if err := w.Flush(); err == nil {
+			b4 := sha(p2)
+			err2 := w.Flush()
+			if err2 == nil || sha(p2) != b4 {
+				rep.Violate(Violation{Kind: "history", Signature: "C16:existing-file-modified", What: fmt.Sprintf("second Flush of the same writer onto its own output: returned %v, file %s", err2, map[bool]string{true: "unchanged", false: "changed or removed"}[sha(p2) == b4]), Expected: "error, file unchanged", Actual: sha(p2), Case: c})
+			}
+		}
+		os.Remove(p2)
+		rep.Count("flush-twice")
+	}
 	if outcome != "err" {
 		rep.Violate(Violation{Kind: "input", Signature: "C16:flush-on-existing-" + outcome, What: fmt.Sprintf("writer %s on an existing %s file", c.Writer, c.Pre), Expected: "err", Actual: outcome, Case: c})
 	}
